@@ -120,6 +120,7 @@ Hypothesis Hproj : forall n e d, alookup p n = Some e -> nkind n = KProjection -
 (** more dirt on existing edges, a larger visited set *)
 Lemma MInv_dirtier : forall Ex Ex' X inp s s',
   s_nodes s' = s_nodes s -> s_bwd s' = s_bwd s -> s_ts s' = s_ts s -> s_log s' = s_log s ->
+  s_world s' = s_world s -> s_ext s' = s_ext s ->
   (forall a b, sdirty s a b -> sdirty s' a b) ->
   (forall a b, sdirty s' a b -> In b (old_fwd s a)) ->
   (forall x, In x (s_visited s') ->
@@ -127,7 +128,7 @@ Lemma MInv_dirtier : forall Ex Ex' X inp s s',
      (nkind x <> KInput /\ forall c, In c (callers_of s x) -> sdirty s' c x /\ (thru c -> In c (s_visited s')))) ->
   MInvE p rk s0 Ex X inp s -> MInvE p rk s0 Ex' X inp s'.
 Proof.
-  intros Ex Ex' X inp s s' Hn Hb Ht Hl Hd1 Hd2 Hv HI.
+  intros Ex Ex' X inp s s' Hn Hb Ht Hl Hw Hxt Hd1 Hd2 Hv HI.
   assert (Hg : forall m, get_info s' m = get_info s m) by (intro m; unfold get_info; rewrite Hn; reflexivity).
   assert (Hc : forall m, callers_of s' m = callers_of s m) by (intro m; unfold callers_of; rewrite Hb; reflexivity).
   destruct HI. split.
@@ -157,6 +158,8 @@ Proof.
   - intros m Hm. rewrite Hl in Hm. apply mi_J. exact Hm.
   - intro m. rewrite Hg. destruct (mi_U m) as [K|K]; [left; apply (msn_verified _ _ Hg Ht); exact K|right; exact K].
   - intros m i. rewrite Hg, Hl. apply mi_O.
+  - intros k. rewrite Hg. unfold world_get. rewrite Hw. apply mi_W.
+  - intros e. rewrite Hxt. apply mi_ext.
 Qed.
 
 (** a path to a node that is neither firewall nor projection runs through such nodes *)
@@ -199,6 +202,7 @@ Proof.
     - destruct (mi_PV _ _ _ _ _ _ _ HI x K0) as [[]|[K1|[K1 _]]]; auto.
     - right. intro K. rewrite K in Kn. discriminate.
     - right. intro Ki. apply (mi_bwd _ _ _ _ _ _ _ HI) in K0. rewrite (minput_no_fwd _ _ _ _ _ _ _ _ HI Ki) in K0. destruct K0. }
+  destruct (propagate_t_we _ _ _ _ H) as [Nw Nx].
   assert (HI' : MInv p rk s0 X inp s').
   { eapply MInv_dirtier; eauto.
     - intros a b K. apply N6 in K. destruct K as [K|K]; [eapply mi_dirty_edge; eauto|].
@@ -241,6 +245,7 @@ Proof.
   destruct (propagate_spec_p E _ _ _ _ H HP) as (N1 & N2 & N3 & N4 & N5 & N6 & N7 & N8 & N9 & N10).
   assert (Hg : forall m, get_info s' m = get_info s m) by (intro m; unfold get_info; rewrite N1; reflexivity).
   assert (Hc : forall m, callers_of s' m = callers_of s m) by (intro m; unfold callers_of; rewrite N2; reflexivity).
+  destruct (propagate_we _ _ _ _ H) as [Nw Nx].
   assert (HI' : MInvE p rk s0 (eq n) X inp s').
   { eapply MInv_dirtier; eauto.
     - intros a b K. apply N6 in K. destruct K as [K|K]; [eapply mi_dirty_edge; eauto|].
